@@ -24,6 +24,10 @@ the theorem (timing residue; the harness checks it on the real hub with drivers 
 tick).  Hence the names `noninterference_partial` / `noninterference_absent_partial`; the full statement is
 `noninterferenceFull`, and `extra_pass_observable` proves that it is false without a stability assumption on the
 healthy drivers (an extra poll between two changes of the world sees the intermediate value).
+The timing-free statement IS proved under the natural explicit hypothesis that the healthy drivers are stable
+(`Stable`: their reads always succeed and return the register): `noninterference_full_under_stability` (+
+`noninterference_full_values_events`), by stuttering equivalence on the effect view `abs`, with the key lemma
+`extra_pass_over_stable_world_is_identity` and `pass_settles_stable_world`.
 The other theorems are full strength: `failing_keeps_last_good`, `not_retried_before_interval`,
 `retried_after_interval`, `recovers`, `update_loop_survives`, `every_tick_polls`.
 -/
